@@ -297,6 +297,9 @@ def run(tier: str, seed: int) -> int:
 
     # ---- B(ii): real components, clear at every position
     c17_real.run_real(chk, rng, thorough)
+    # the component registries (add / del / get, listings, named accessors of the shipped topologies)
+    from .layer_registry import run_layer_registry
+    run_layer_registry(chk, rng, thorough)
     subcheck.join(chk, net)
     return chk.finish()
 
